@@ -103,7 +103,8 @@ Definition ops_visible (st : nstate) : list operation :=
 
 Definition put_operation (h : hs) (o : operation) : res unit :=
   let ops := ops_visible (h_st h) in
-  if existsb (op_same_id o) ops then RErr h
+  (* OperationService.PutOperation: the very same operation still pending - nothing to add *)
+  if existsb (op_same_id o) ops then ROk h tt
   else ROk (emit h (WOps (ops ++ [o]))) tt.
 
 Definition delete_operation (h : hs) (o : operation) : res unit :=
